@@ -450,7 +450,7 @@ Proof.
 Qed.
 
 Lemma Never_finalize_writes o : forall ds st, Never (finalize_writes o st ds).
-Proof. induction ds as [|d r IH]; intros st; cbn [finalize_writes]; pose proof Never_write_now; nf. Qed.
+Proof. induction ds as [|d r IH]; intros st; cbn [finalize_writes]; pose proof Never_write_now; pose proof Never_ensure; nf. Qed.
 Lemma Never_finalize_removals ws : forall rs, Never (finalize_removals ws rs).
 Proof. induction rs as [|p r IH]; cbn [finalize_removals]; pose proof Never_remove; nf. Qed.
 
